@@ -47,7 +47,9 @@ def run_mutations(pid, tier, seed, exe, wd):
     # statements with an auxiliary segment: one with and one without a Lagrange kernel column (GKR proof in the wire format)
     aux_lag = [s for s in stmts if s["t"]["auxd"] and s["t"]["lag"] == 1]
     aux_plain = [s for s in stmts if s["t"]["auxd"] and s["t"]["lag"] == 0]
-    chosen = small[:1] + aux_lag[:1 if tier == "quick" else 4] + aux_plain[:1 if tier == "quick" else 4] + chosen
+    # statements with trace metadata (shorter than / exactly / longer than one seed element)
+    metas = [s for s in stmts if s["t"]["meta"] == 1][:1] + [s for s in stmts if s["t"]["meta"] == 7][:1] + [s for s in stmts if s["t"]["meta"] == 8][:1]
+    chosen = small[:1] + aux_lag[:1 if tier == "quick" else 4] + aux_plain[:1 if tier == "quick" else 4] + metas + chosen
     scs = [starkgen.scenario(rec, i, seed) for i, rec in enumerate(chosen)]
     scs = [sc for sc in scs if not starkgen.low_degree(sc)]
     msets, st, tr = mutation_sets({wire_key(sc) for sc in scs}, wd)
